@@ -42,6 +42,15 @@ def extra_profiles(profiles, n_quick, n_thorough):
     return extra
 
 
+def extra_all(*fns):
+    def extra(rng, tier):
+        out = []
+        for f in fns:
+            out += f(rng, tier)
+        return out
+    return extra
+
+
 def model_input_for(c, io, build):
     return machprog.coq_case(c, io.get("oracle", []))
 
@@ -65,7 +74,7 @@ def first_diff(a, b):
 
 
 def install(g, prop, names, prefixes, profiles_quick, profiles_thorough=None, n_quick=250, n_thorough=4000,
-            nontrivial=None, corpus=(), hang_clause=None, extra_monitors=None, case_filter=None, level="exploration",
+            nontrivial=None, corpus=(), hang_clause=None, hang_monitor=None, extra_monitors=None, case_filter=None, level="exploration",
             impl_only=None, extra_gen=None):
     """Defines the driver API in module namespace g."""
     g["PROP"] = prop
@@ -99,6 +108,10 @@ def install(g, prop, names, prefixes, profiles_quick, profiles_thorough=None, n_
 
     def monitors(c, io, build):
         if "Hang" in io:
+            if hang_monitor:
+                fs = hang_monitor(c, io, build)
+                if fs:
+                    return fs
             if hang_clause:
                 return [dict(clause=hang_clause, site="computation-did-not-terminate",
                              msg="the computation did not finish within the watchdog limit")]
